@@ -31,6 +31,15 @@ CLAIMED['C11'] = (
     'X^a X^b = X^(a+b mod 2N), X^N=-1; ten coefficient-wise routines with symbolic scalar p (INT32_MIN included), N<=8.',
     TRUST, 'bounded symbolic execution (clang IR -> C -> CBMC) + SAT/SMT portfolio (cvc5 integer encoding proves ring identities, SAT refutes)', 'DESIGN.md section 4, C11')
 
+CLAIMED['C14'] = (
+    'Samples, scalar and key coefficients symbolic (arbitrary int32 keys). LWE add/sub/addmul/submul/negate/copy/clear/trivial: '
+    'coordinates and phase(out) = phase(c1) +- p*phase(c2) through the real lwePhase, n in 1..9; the AVX2 inline-asm subtraction '
+    '(asm2c) for every n in 1..17 with bounds checks on; variance annotation formula with FP ops uninterpreted. TLWE operations over '
+    'the exact ring back-end for N in {2,4}, k in {1,2,3}; (X^a-1) rotation and coefficient extraction in coordinates (index symbolic) '
+    'and as phase identities (index enumerated), N<=8.',
+    TRUST + '; A2: exact polynomial-product back-end (models/fft_ideal.cpp) where TLWE operations multiply polynomials; asm2c',
+    'bounded symbolic execution (clang IR + inline asm -> C -> CBMC) + SAT/SMT portfolio', 'DESIGN.md section 4, C14')
+
 NOT_APPLICABLE = {
     'C02': 'statistical claim (mean/stdev/tail of the phase error of the real FFT pipeline at N=1024): a solver decides for-all/exists and the for-all version is false; its deterministic mechanisms are decided under C12, C08, C07, C19, C01',
     'C10': 'double-precision rounding error of 2048-point FFTs, three of five back-ends being hand-written AVX/FMA assembly or FFTW: bit-precise FP is out of solver reach beyond N~2 and a sound real-arithmetic over-approximation exceeds the stated 2 units',
